@@ -8,6 +8,7 @@ import (
 	"golang.org/x/tools/go/ssa"
 
 	"verif/checker/internal/an"
+	"verif/checker/internal/report"
 )
 
 // decisionTable decides a function whose outcome depends on its integer parameters through comparisons only.
@@ -493,4 +494,367 @@ func decideStringPred(f *ssa.Function) (strPred, bool) {
 	}
 	sp.Other = b
 	return sp, true
+}
+
+// ---- functions from one name to an error
+
+// errByName is what decideErrByName finds out about a `func(name) error` whose result depends on the name only
+// through comparisons with constants and lookups in constant tables: "" stands for nil, anything else is the
+// package-level error variable whose value is returned.
+type errByName struct {
+	For   map[string]string // per constant the function mentions
+	Other string            // for a name that is none of them
+}
+
+// globalSetOnce: g is assigned exactly once in the repository, by the initialiser of its own package, and its
+// address is used for nothing but loads - what a table built by an initialiser read from it is what it holds for good.
+func globalSetOnce(c *report.Ctx, g *ssa.Global) bool {
+	if g == nil || g.Pkg == nil {
+		return false
+	}
+	stores, bad := 0, false
+	scan := func(f *ssa.Function, isInit bool) {
+		an.AllInstrs(f, func(in ssa.Instruction) {
+			var ops []*ssa.Value
+			for _, r := range in.Operands(ops) {
+				if *r != ssa.Value(g) {
+					continue
+				}
+				switch x := in.(type) {
+				case *ssa.UnOp:
+					if x.Op != token.MUL {
+						bad = true
+					}
+				case *ssa.Store:
+					if x.Addr == ssa.Value(g) && isInit && f.Pkg == g.Pkg {
+						stores++
+					} else {
+						bad = true
+					}
+				case *ssa.DebugRef:
+				default:
+					bad = true
+				}
+			}
+		})
+	}
+	for _, f := range repoFuncs(c) {
+		scan(f, false)
+	}
+	for _, sp := range c.P.SSAPkgs {
+		if ini := sp.Func("init"); ini != nil {
+			for _, f := range an.WithAnon(ini) {
+				scan(f, f == ini)
+			}
+		}
+	}
+	return stores == 1 && !bad
+}
+
+// constErrTable: the package-level map g is a read-only table from constant names to errors - built by one literal
+// in its package's initialiser (constant keys; each value nil or the value of a package-level variable that is
+// assigned once), never assigned again, and only looked up (or measured) anywhere in the repository. The result maps
+// each key to "" (nil) or the name of that variable.
+func constErrTable(c *report.Ctx, g *ssa.Global) (map[string]string, bool) {
+	if g == nil || g.Pkg == nil {
+		return nil, false
+	}
+	ini := g.Pkg.Func("init")
+	if ini == nil {
+		return nil, false
+	}
+	var mk *ssa.MakeMap
+	stores, bad := 0, false
+	scan := func(f *ssa.Function) {
+		an.AllInstrs(f, func(in ssa.Instruction) {
+			var ops []*ssa.Value
+			for _, r := range in.Operands(ops) {
+				if *r != ssa.Value(g) {
+					continue
+				}
+				switch x := in.(type) {
+				case *ssa.Store:
+					m, isMk := x.Val.(*ssa.MakeMap)
+					if x.Addr != ssa.Value(g) || f != ini || !isMk {
+						bad = true
+					} else {
+						stores++
+						mk = m
+					}
+				case *ssa.UnOp:
+					if x.Op != token.MUL || x.Referrers() == nil {
+						bad = true
+						continue
+					}
+					for _, u := range *x.Referrers() {
+						switch y := u.(type) {
+						case *ssa.Lookup:
+							if y.X != ssa.Value(x) {
+								bad = true
+							}
+						case *ssa.Call:
+							if bi, isB := y.Call.Value.(*ssa.Builtin); !isB || bi.Name() != "len" {
+								bad = true
+							}
+						case *ssa.DebugRef:
+						default:
+							bad = true
+						}
+					}
+				case *ssa.DebugRef:
+				default:
+					bad = true
+				}
+			}
+		})
+	}
+	for _, f := range repoFuncs(c) {
+		scan(f)
+	}
+	for _, sp := range c.P.SSAPkgs {
+		if pi := sp.Func("init"); pi != nil {
+			for _, f := range an.WithAnon(pi) {
+				scan(f)
+			}
+		}
+	}
+	if bad || stores != 1 || mk == nil || mk.Referrers() == nil {
+		return nil, false
+	}
+	out := map[string]string{}
+	for _, ref := range *mk.Referrers() {
+		switch r := ref.(type) {
+		case *ssa.MapUpdate:
+			k, isK := an.ConstString(r.Key)
+			if !isK || r.Map != ssa.Value(mk) || r.Block() == nil || r.Parent() != ini {
+				return nil, false
+			}
+			if _, dup := out[k]; dup {
+				return nil, false
+			}
+			switch {
+			case an.IsNil(r.Value):
+				out[k] = ""
+			default:
+				ld, isLd := an.Strip(r.Value, false).(*ssa.UnOp)
+				if !isLd || ld.Op != token.MUL {
+					return nil, false
+				}
+				g2, isG := ld.X.(*ssa.Global)
+				if !isG || !globalSetOnce(c, g2) {
+					return nil, false
+				}
+				out[k] = an.GlobalOf(ld)
+			}
+		case *ssa.Store:
+			if r.Val != ssa.Value(mk) || r.Addr != ssa.Value(g) {
+				return nil, false
+			}
+		case *ssa.DebugRef:
+		default:
+			return nil, false
+		}
+	}
+	return out, true
+}
+
+// decideErrByName decides a `func(name) error` per class of names: one walk per constant it mentions (compared with,
+// or a key of a table it looks the name up in) and one for a name that is none of them. Nothing is executed; a
+// branch on anything but a comparison of the name with a constant, the presence of the name in a constant table, or
+// the nil-ness of what such a table holds for it leaves the function undecided.
+func decideErrByName(c *report.Ctx, f *ssa.Function) (errByName, bool) {
+	var out errByName
+	if f == nil || len(f.Params) != 1 || len(f.Blocks) == 0 || f.Signature.Results().Len() != 1 {
+		return out, false
+	}
+	key := f.Params[0]
+	isKey := func(v ssa.Value) bool { return an.Strip(v, true) == ssa.Value(key) }
+	consts := map[string]bool{}
+	tables := map[*ssa.Lookup]map[string]string{}
+	ok := true
+	an.AllInstrs(f, func(in ssa.Instruction) {
+		switch x := in.(type) {
+		case *ssa.BinOp:
+			if x.Op == token.EQL || x.Op == token.NEQ {
+				if s, k := an.ConstString(x.Y); k && isKey(x.X) {
+					consts[s] = true
+				} else if s, k := an.ConstString(x.X); k && isKey(x.Y) {
+					consts[s] = true
+				}
+			}
+		case *ssa.Lookup:
+			if !isKey(x.Index) {
+				return
+			}
+			ld, isLd := x.X.(*ssa.UnOp)
+			if !isLd || ld.Op != token.MUL {
+				ok = false
+				return
+			}
+			g, isG := ld.X.(*ssa.Global)
+			if !isG {
+				ok = false
+				return
+			}
+			t, k := constErrTable(c, g)
+			if !k {
+				ok = false
+				return
+			}
+			tables[x] = t
+			for s := range t {
+				consts[s] = true
+			}
+		}
+	})
+	if !ok || len(consts) > 64 {
+		return out, false
+	}
+	type val struct {
+		known bool
+		name  string // "" = nil
+	}
+	eval := func(rep string) (val, bool) {
+		phiVal := map[*ssa.Phi]ssa.Value{}
+		var valOf func(v ssa.Value, depth int) val
+		valOf = func(v ssa.Value, depth int) val {
+			if depth > 32 {
+				return val{}
+			}
+			if an.IsNil(v) {
+				return val{true, ""}
+			}
+			switch x := v.(type) {
+			case *ssa.Phi:
+				if w, has := phiVal[x]; has {
+					return valOf(w, depth+1)
+				}
+			case *ssa.UnOp:
+				if g := an.GlobalOf(x); g != "" {
+					return val{true, g}
+				}
+			case *ssa.Lookup:
+				if t, has := tables[x]; has && !x.CommaOk {
+					return val{true, t[rep]} // (absent: the zero value, nil)
+				}
+			case *ssa.Extract:
+				if lk, isLk := x.Tuple.(*ssa.Lookup); isLk && lk.CommaOk && x.Index == 0 {
+					if t, has := tables[lk]; has {
+						return val{true, t[rep]}
+					}
+				}
+			}
+			return val{}
+		}
+		var boolOf func(v ssa.Value, depth int) (bool, bool)
+		boolOf = func(v ssa.Value, depth int) (bool, bool) {
+			if depth > 32 {
+				return false, false
+			}
+			if b, k := an.ConstBool(v); k {
+				return b, true
+			}
+			switch x := v.(type) {
+			case *ssa.Phi:
+				if w, has := phiVal[x]; has {
+					return boolOf(w, depth+1)
+				}
+			case *ssa.UnOp:
+				if x.Op == token.NOT {
+					b, k := boolOf(x.X, depth+1)
+					return !b, k
+				}
+			case *ssa.Extract:
+				if lk, isLk := x.Tuple.(*ssa.Lookup); isLk && lk.CommaOk && x.Index == 1 {
+					if t, has := tables[lk]; has {
+						_, present := t[rep]
+						return present, true
+					}
+				}
+			case *ssa.BinOp:
+				if x.Op != token.EQL && x.Op != token.NEQ {
+					return false, false
+				}
+				s, k := an.ConstString(x.Y)
+				other := x.X
+				if !k {
+					s, k = an.ConstString(x.X)
+					other = x.Y
+				}
+				if k && isKey(other) {
+					return (s == rep) == (x.Op == token.EQL), true
+				}
+				// the nil-ness of what a table holds for the name (a variable's value is not known to be non-nil here)
+				for _, pair := range [][2]ssa.Value{{x.X, x.Y}, {x.Y, x.X}} {
+					if !an.IsNil(pair[1]) {
+						continue
+					}
+					if w := valOf(pair[0], depth+1); w.known && w.name == "" {
+						return x.Op == token.EQL, true
+					}
+				}
+				bx, k1 := boolOf(x.X, depth+1)
+				by, k2 := boolOf(x.Y, depth+1)
+				if k1 && k2 {
+					return (bx == by) == (x.Op == token.EQL), true
+				}
+			}
+			return false, false
+		}
+		b := f.Blocks[0]
+		var prev *ssa.BasicBlock
+		for steps := 0; steps < 256; steps++ {
+			for _, in := range b.Instrs {
+				if p, isPhi := in.(*ssa.Phi); isPhi && prev != nil {
+					for i, pb := range b.Preds {
+						if pb == prev {
+							phiVal[p] = p.Edges[i]
+						}
+					}
+				}
+			}
+			switch t := b.Instrs[len(b.Instrs)-1].(type) {
+			case *ssa.Return:
+				if len(t.Results) != 1 {
+					return val{}, false
+				}
+				w := valOf(t.Results[0], 0)
+				return w, w.known
+			case *ssa.Jump:
+				prev, b = b, b.Succs[0]
+			case *ssa.If:
+				cnd, k := boolOf(t.Cond, 0)
+				if !k {
+					return val{}, false
+				}
+				prev = b
+				if cnd {
+					b = b.Succs[0]
+				} else {
+					b = b.Succs[1]
+				}
+			default:
+				return val{}, false
+			}
+		}
+		return val{}, false
+	}
+	out.For = map[string]string{}
+	for s := range consts {
+		w, k := eval(s)
+		if !k {
+			return out, false
+		}
+		out.For[s] = w.name
+	}
+	rep := "\x00\x00"
+	for consts[rep] {
+		rep += "\x00"
+	}
+	w, k := eval(rep)
+	if !k {
+		return out, false
+	}
+	out.Other = w.name
+	return out, true
 }
